@@ -218,6 +218,8 @@ pub struct SimOutcome {
     pub live_at_flip: usize,
     pub units_total: u64,
     pub units_after_flip: u64,
+    /// number of evaluations of the abort predicate that answered true
+    pub true_polls: u64,
     pub a3_violations: Vec<String>,
     pub notes: Vec<String>,
     pub stale_events: Vec<(u64, u32)>,
@@ -267,6 +269,8 @@ pub(crate) struct Sim {
     pub live_now: usize,
     pub units_total: u64,
     pub units_after_flip: u64,
+    /// number of evaluations of the abort predicate that answered true
+    pub true_polls: u64,
     pub a3_violations: Vec<String>,
     pub notes: Vec<String>,
     pub livelock: bool,
@@ -362,6 +366,7 @@ impl Sim {
             live_now: 1,
             units_total: 0,
             units_after_flip: 0,
+            true_polls: 0,
             a3_violations: vec![],
             notes: vec![],
             livelock: false,
@@ -741,6 +746,7 @@ pub fn run_sim<R: Send + 'static>(
         live_at_flip: sim.live_at_flip,
         units_total: sim.units_total,
         units_after_flip: sim.units_after_flip,
+        true_polls: sim.true_polls,
         a3_violations: sim.a3_violations,
         notes: sim.notes,
         stale_events: sim.stale_events,
